@@ -29,3 +29,7 @@ func (p *Protocol) VerifPendingSendBytes() int {
 	defer p.pendingBytesMu.Unlock()
 	return p.pendingSendBytes
 }
+
+// VerifPendingRecvBytesQuiescent reads the receive accounting without taking the lock; only
+// for the scheduler's invariant hook, which runs while every goroutine is parked.
+func (p *Protocol) VerifPendingRecvBytesQuiescent() int { return p.pendingRecvBytes }
